@@ -235,8 +235,11 @@ func (s *Server) Run(addr string, opt ...Option) error {
 					s.logger.Debug("connWg done", "op", op, "conn", localConnID)
 					s.connWg.Done()
 				}()
-				s.untrackConn(localConnID)
+				// close waits for the handlers still running: until they are done
+				// the conn must stay within Stop's reach, or a handler blocked on
+				// a client that does not read would make Stop wait forever
 				err := conn.close()
+				s.untrackConn(localConnID)
 				if err != nil {
 					s.logger.Error("error closing conn", "op", op, "conn", localConnID, "conn/req", "err", err)
 					// we are intentionally not returning here; since we still
